@@ -143,6 +143,15 @@ Theorem C11_toggle_idempotent :
 Proof. exact @toggle_idempotent. Qed.
 Print Assumptions C11_toggle_idempotent.
 
+(* the last call wins: disable after enable of the same names (or the reverse)
+   is the later call alone *)
+Theorem C11_toggle_last_wins :
+  forall (F : Type) v1 v2 names ign (r : ruler F),
+    NoDup (all_names r) ->
+    toggle v2 names ign (fst (toggle v1 names ign r)) = toggle v2 names ign r.
+Proof. exact @toggle_last_wins. Qed.
+Print Assumptions C11_toggle_last_wins.
+
 (* the code before the repair (cache invalidated only on success) is refuted *)
 Theorem C11_legacy_refuted :
   let r := legacy_run stale_history in
